@@ -154,14 +154,17 @@ def attr_term(a):
         b(a["echo"]), b(a["icanon"]), b(a["isig"]), b(a["opost"]), a["vmin"], a["vtime"]))
 
 
-def attrs_name(a):
+def attrs_name(a, short=False):
+    if short:  # histogram key
+        return next((k for k, v in ATTRS.items() if v == a),
+                    "other(echo=%d,icanon=%d,...)" % (a["echo"], a["icanon"]))
     return next((k for k, v in ATTRS.items() if v == a), "echo=%d,icanon=%d,isig=%d,opost=%d,vmin=%d,vtime=%d" % (
         a["echo"], a["icanon"], a["isig"], a["opost"], a["vmin"], a["vtime"]))
 
 
 def typeahead_kind(t):
     t = bytes(t)
-    return next((k for k, v in TYPEAHEAD.items() if v == t), "other(%d bytes)" % len(t))
+    return next((k for k, v in TYPEAHEAD.items() if v == t), "other")
 
 
 def cache_term(c):
@@ -1109,7 +1112,7 @@ def run(ctx):
         for c, v, rec in zip(ps, bits, recs):
             bump(hist["op"], "pty:" + c["op"])
             bump(hist["pty_attempts"], (rec or {}).get("attempts", 0))
-            bump(hist["pty_initial_attributes"], attrs_name(init_of(c)["attrs"]))
+            bump(hist["pty_initial_attributes"], attrs_name(init_of(c)["attrs"], short=True))
             bump(hist["pty_unread_input_at_call"], typeahead_kind(init_of(c)["typeahead"]))
             init_pairs.add((attrs_name(init_of(c)["attrs"]), typeahead_kind(init_of(c)["typeahead"])))
             if v == -3:
